@@ -83,7 +83,7 @@ def outcome(ctx, b, env, depth=0):
             raise Unsupported(mir.render_atom(a))
         raise Unsupported(mir.render_atom(a))
     active = []
-    for g, term, bi in b.local_cases(0):
+    for g, term, bi in b.expanded_cases(0):
         hit = False
         for conj in g:
             if all(val(a) for a in conj):
@@ -145,7 +145,7 @@ def r1(ctx):
         # the error reported on a break is InvalidSequence
         for fn in ("validate_first_update", "validate_next_update"):
             fb = ctx.fbody(name=fn, self_adt=seq, trait="")
-            errs = [render(t) for g, t, bi in fb.local_cases(0) if render(t).startswith("Result::Err")]
+            errs = [render(t) for g, t, bi in fb.expanded_cases(0) if render(t).startswith("Result::Err")]
             ctx.check("%s:%s" % (venue, fn), len(errs) == 1 and errs[0].startswith("Result::Err{0: DataError::InvalidSequence{"),
                       "a broken chain is reported as DataError::InvalidSequence", got=errs, key="error-kind")
 
@@ -153,7 +153,7 @@ def r1(ctx):
 def r2(ctx):
     for venue, (seq, _, _) in VENUES.items():
         b = ctx.fbody(name="validate_sequence", self_adt=seq, trait="")
-        acc = [g for g, t, bi in b.local_cases(0) if render(t) == "Result::Ok{0: Option::Some{0: update}}"]
+        acc = [g for g, t, bi in b.expanded_cases(0) if render(t) == "Result::Ok{0: Option::Some{0: update}}"]
         ctx.check("%s:validate_sequence" % venue, len(acc) == 1, "one accepting return", got=len(acc), key="one-accept")
         if len(acc) != 1:
             continue
@@ -193,7 +193,7 @@ def r3(ctx):
     for venue, (seq, tr, upd) in VENUES.items():
         b = ctx.fbody(name="transform", self_adt=tr, trait=T)
         tab = {}
-        for g, term, bi in b.local_cases(0):
+        for g, term, bi in b.expanded_cases(0):
             r = render(term)
             for conj in g:
                 key = []
@@ -249,7 +249,7 @@ def r4(ctx):
     DE = "barter_data::error::DataError"
     b = ctx.fbody(name="is_terminal", self_adt=DE, trait="")
     tab = {}
-    for g, term, bi in b.local_cases(0):
+    for g, term, bi in b.expanded_cases(0):
         for conj in g:
             for a in conj:
                 if a[0] == "is" and render(a[1]) == "self":
@@ -271,7 +271,7 @@ def r4(ctx):
         raise Exception("map_while closure of with_termination_on_error not found")
     lb = ctx.body(leaf)
     tab = {}
-    for g, term, bi in lb.local_cases(0):
+    for g, term, bi in lb.expanded_cases(0):
         for conj in g:
             key = []
             for a in sorted(conj, key=repr):
